@@ -26,7 +26,7 @@ From Burrow Require Import Int64.
 Import ListNotations.
 Open Scope Z_scope.
 
-Definition blen (b : list Z) : Z := Z.of_nat (length b).
+Definition blen {A} (b : list A) : Z := Z.of_nat (length b).
 
 (* ---------- integers: encoding/binary.Read(buf, BigEndian, &intN) ---------- *)
 
